@@ -17,4 +17,6 @@ def obligations(tier):
     for (it, ot) in [(0, 0), (5, 6)]:
         for kind in (2, 3, 8):
             obls.append(api_step(4, it, ot, kind, 2))
+    for (it, ot) in [(5, 6), (0, 0)]:      # end-of-input must reach the engines (delay after end-of-input counts down from the owed total), incl. the split/split fast path
+        obls.append(api_step(1, it, ot, 2, 2))
     return obls
